@@ -93,13 +93,28 @@ func runC03(w *World, r *Report) {
 			}
 			gets := callsTo(cl, "(*"+badgerPkg+".Txn).Get")
 			sets := callsTo(cl, "(*"+badgerPkg+".Txn).SetEntry", "(*"+badgerPkg+".Txn).Set")
+			keyParam := f.fn.Params[1].Name()
+			if len(gets) == 0 && len(sets) == 0 { // get-then-set moved into a helper taking the transaction
+				if hf, hp, cs := delegateFor(cl, cl.Params[0]); hf != nil {
+					// the helper's key parameter must be bound to the reservation key at the call
+					for k, a := range cs.Common().Args {
+						if pathOf(a) == keyParam && k < len(hf.Params) {
+							keyParam = hf.Params[k].Name()
+						}
+					}
+					cl = hf
+					_ = hp
+					gets = callsTo(cl, "(*"+badgerPkg+".Txn).Get")
+					sets = callsTo(cl, "(*"+badgerPkg+".Txn).SetEntry", "(*"+badgerPkg+".Txn).Set")
+				}
+			}
 			if len(gets) != 1 || len(sets) != 1 {
 				why = fmt.Sprintf("expected one Get and one SetEntry in the callback, found %d/%d", len(gets), len(sets))
 				continue
 			}
 			gr, ga := callArgs(gets[0])
 			sr, sa := callArgs(sets[0])
-			sameTxn := sameVal(gr, sr) && gr == ssa.Value(cl.Params[0])
+			sameTxn := sameVal(gr, sr) && isParamOf(cl, gr)
 			keyPath := pathOf(ga[0])
 			setKey := ""
 			if ne, ok := strip(sa[0]).(*ssa.Call); ok && strings.HasSuffix(calleeName(ne), ".NewEntry") {
@@ -108,7 +123,7 @@ func runC03(w *World, r *Report) {
 				setKey = pathOf(sa[0])
 			}
 			guard := behind(sets[0], failErrNonNil(gets[0]))
-			if sameTxn && keyPath == setKey && guard && keyPath == f.fn.Params[1].Name() {
+			if sameTxn && keyPath == setKey && guard && keyPath == keyParam {
 				ok = true
 			} else {
 				why = fmt.Sprintf("sameTxn=%v getKey=%s setKey=%s setBehindNotFound=%v", sameTxn, keyPath, setKey, guard)
@@ -310,4 +325,13 @@ func reachableFuncs(w *World, fn *ssa.Function) map[*ssa.Function]bool {
 	}
 	visit(fn)
 	return seen
+}
+
+func isParamOf(fn *ssa.Function, v ssa.Value) bool {
+	for _, p := range fn.Params {
+		if ssa.Value(p) == v {
+			return true
+		}
+	}
+	return false
 }
